@@ -444,3 +444,176 @@ Proof.
   - apply heck_words_alnum.
   - apply heck_words_nonempty.
 Qed.
+
+(* ---------------------------------------------------------------------------------------------- *)
+(* (d) which snake_case names are valid idens *)
+
+(* the first letter-or-digit of s, if any, is a letter *)
+Definition first_alnum_is_letter (s : str) : Prop :=
+  match filter is_ascii_alphanumeric s with
+  | c :: _ => is_ascii_alphabetic c = true
+  | [] => True
+  end.
+
+Lemma lower_head_valid c :
+  is_ascii_alphanumeric c = true ->
+  (ascii_lower c =? UNDERSCORE) || is_ascii_alphabetic (ascii_lower c) = is_ascii_alphabetic c.
+Proof. charcase. Qed.
+
+Lemma snake_case_all_iden_chars s :
+  forallb (fun c => (c =? UNDERSCORE) || is_ascii_alphanumeric c) (snake_case s) = true.
+Proof.
+  apply forallb_forall. intros c Hc.
+  pose proof (snake_case_alphabet s) as H. rewrite Forall_forall in H.
+  apply snake_char_is_iden_char. now apply H.
+Qed.
+
+Theorem snake_case_valid_iden_iff s :
+  must_be_valid_iden (snake_case s) = true <-> first_alnum_is_letter s.
+Proof.
+  unfold must_be_valid_iden, first_alnum_is_letter.
+  rewrite snake_case_all_iden_chars, andb_true_r.
+  rewrite <- heck_words_concat, snake_case_words.
+  pose proof (heck_words_nonempty s) as Hne. pose proof (heck_words_alnum s) as Hal.
+  destruct (heck_words s) as [|w ws]; [cbn; tauto|].
+  inversion Hne as [|? ? Hw _]; subst. inversion Hal as [|? ? Hwa _]; subst.
+  destruct w as [|c w]; [congruence|]. inversion Hwa as [|? ? Hc _]; subst.
+  cbn [map lowercase join_with app firstn concat forallb].
+  rewrite (lower_head_valid c Hc), andb_true_r. tauto.
+Qed.
+
+Corollary snake_names_take_fast_path s :
+  first_alnum_is_letter s -> must_be_valid_iden (snake_case s) = true.
+Proof. apply snake_case_valid_iden_iff. Qed.
+
+(* ASCII Rust identifiers: XID_Start or underscore, then XID_Continue *)
+Definition rust_ident (s : str) : Prop :=
+  match s with
+  | c :: t => ((c =? UNDERSCORE) || is_ascii_alphabetic c = true)
+              /\ Forall (fun x => is_iden_char x = true) t /\ s <> [UNDERSCORE]
+  | [] => False
+  end.
+
+Lemma letter_first_is_letter c t : is_ascii_alphabetic c = true -> first_alnum_is_letter (c :: t).
+Proof.
+  intros H. unfold first_alnum_is_letter. cbn [filter].
+  unfold is_ascii_alphanumeric. rewrite H. exact H.
+Qed.
+
+(* an un-renamed variant whose identifier starts with a letter (and is not `Table`) is valid *)
+Theorem unrenamed_variant_valid tn ident c t :
+  ident = c :: t -> is_ascii_alphabetic c = true -> str_eqb ident TABLE = false ->
+  variant_valid tn ident None = true.
+Proof.
+  intros -> Hc Ht. cbn [variant_valid]. unfold table_or_snake_case. rewrite Ht.
+  apply snake_names_take_fast_path. now apply letter_first_is_letter.
+Qed.
+
+(* ---------------------------------------------------------------------------------------------- *)
+(* (b) the naming function against the documented naming *)
+
+Definition spec_table_name (type_name : str) (type_rename : option str) : str :=
+  match type_rename with Some r => r | None => snake_case type_name end.
+
+Definition spec_variant_name (type_name : str) (type_rename : option str)
+           (variant_name : str) (variant_rename : option str) : str :=
+  match variant_rename with
+  | Some r => r
+  | None => if str_eqb variant_name TABLE then spec_table_name type_name type_rename
+            else snake_case variant_name
+  end.
+
+Lemma get_table_name_spec ident attrs crename :
+  parsed_attr attrs = Some (option_map Rename crename) ->
+  get_table_name ident attrs = Some (spec_table_name ident crename).
+Proof. unfold get_table_name. intros ->. now destruct crename. Qed.
+
+Theorem derived_variant_name_spec menv ident attrs vs i var inner crename vrename :
+  parsed_attr attrs = Some (option_map Rename crename) ->
+  nth_error vs i = Some var ->
+  variant_new var = Some (option_map Rename vrename) ->
+  unquoted menv (DEnum ident attrs vs) (VVariant i inner)
+    = Some (spec_variant_name ident crename (v_ident var) vrename)
+  /\ as_str menv (DEnum ident attrs vs) (VVariant i inner)
+    = Some (spec_variant_name ident crename (v_ident var) vrename).
+Proof.
+  intros Hc Hn Hv. cbn [unquoted as_str].
+  rewrite (get_table_name_spec ident attrs crename Hc), Hn.
+  unfold variant_arm. rewrite Hv. now destruct vrename.
+Qed.
+
+Theorem derived_method_name menv ident attrs vs i var inner crename m :
+  parsed_attr attrs = Some (option_map Rename crename) ->
+  nth_error vs i = Some var ->
+  variant_new var = Some (Some (Method m)) ->
+  unquoted menv (DEnum ident attrs vs) (VVariant i inner) = Some (menv ident m).
+Proof.
+  intros Hc Hn Hv. cbn [unquoted].
+  rewrite (get_table_name_spec ident attrs crename Hc), Hn.
+  unfold variant_arm. now rewrite Hv.
+Qed.
+
+Theorem derived_flatten_name menv ident attrs vs i var t' v' crename :
+  parsed_attr attrs = Some (option_map Rename crename) ->
+  nth_error vs i = Some var ->
+  variant_new var = Some (Some Flatten) ->
+  unquoted menv (DEnum ident attrs vs) (VVariant i (Some (t', v'))) = unquoted menv t' v'.
+Proof.
+  intros Hc Hn Hv. cbn [unquoted].
+  rewrite (get_table_name_spec ident attrs crename Hc), Hn.
+  unfold variant_arm. now rewrite Hv.
+Qed.
+
+Theorem derived_unit_struct_name menv ident attrs crename :
+  parsed_attr attrs = Some (option_map Rename crename) ->
+  Forall (fun c => c <> 123 /\ c <> 125) (spec_table_name ident crename) ->
+  unquoted menv (DUnit ident attrs) VUnit = Some (spec_table_name ident crename)
+  /\ as_str menv (DUnit ident attrs) VUnit = Some (spec_table_name ident crename).
+Proof.
+  intros Hc Hb. cbn [unquoted as_str]. rewrite (get_table_name_spec ident attrs crename Hc).
+  split; [|reflexivity].
+  induction Hb as [|c s [H1 H2] _ IH]; [reflexivity|].
+  cbn [fmt_literal]. destruct (N.eqb_spec c 123); [contradiction|].
+  destruct (N.eqb_spec c 125); [contradiction|]. cbn [orb]. now rewrite IH.
+Qed.
+
+(* which attribute counts: the first one; in a list form the last item *)
+Theorem parsed_attr_first_wins :
+  parsed_attr [] = Some None
+  /\ (forall r rest, parsed_attr (MIdenEq r :: rest) = Some (Some (Rename r)))
+  /\ (forall m rest, parsed_attr (MMethodEq m :: rest) = Some (Some (Method m)))
+  /\ (forall items it rest, parsed_attr (MIdenList (items ++ [it]) :: rest) = Some (Some (attr_of_nested it))).
+Proof.
+  repeat split; try reflexivity. intros items it rest.
+  unfold parsed_attr, find_attr. cbn [hd_error attr_of_meta].
+  rewrite map_app. cbn [map]. now rewrite last_last.
+Qed.
+
+Theorem enum_def_naming a ident fs :
+  enum_def_name a ident = or_default (ed_prefix a) [] ++ ident ++ or_default (ed_suffix a) DEFAULT_SUFFIX
+  /\ enum_def_variants fs = TABLE :: map pascal_case fs
+  /\ (forall menv inner, unquoted menv (DEnumDef a ident fs) (VVariant 0 inner)
+        = Some (match ed_table_name a with Some t => t | None => snake_case ident end))
+  /\ (forall menv inner k, unquoted menv (DEnumDef a ident fs) (VVariant (S k) inner) = nth_error fs k)
+  /\ (forall menv v, as_str menv (DEnumDef a ident fs) v = unquoted menv (DEnumDef a ident fs) v).
+Proof. repeat split; try reflexivity. intros menv v. now destruct v. Qed.
+
+(* pascal_case keeps exactly the letters and digits of the input *)
+Lemma capitalize_alnum w : alnum_word w ->
+  filter is_ascii_alphanumeric (capitalize w) = capitalize w.
+Proof.
+  intros Hw. destruct Hw as [|c w Hc Hw]; [reflexivity|].
+  cbn [capitalize filter].
+  replace (is_ascii_alphanumeric (ascii_upper c)) with true by (symmetry; revert Hc; charcase).
+  f_equal. pose proof (lowercase_alnum_word w Hw) as H.
+  induction H as [|x xs Hx _ IH]; [reflexivity|]. cbn [filter]. now rewrite Hx, IH.
+Qed.
+
+Theorem pascal_case_alnum s : Forall (fun c => is_ascii_alphanumeric c = true) (pascal_case s).
+Proof.
+  rewrite pascal_case_words.
+  pose proof (heck_words_alnum s) as H.
+  induction H as [|w ws Hw _ IH]; [constructor|].
+  cbn [map concat]. apply Forall_app. split; [|exact IH].
+  rewrite <- (capitalize_alnum w Hw). apply Forall_forall. intros c Hc. now apply filter_In in Hc.
+Qed.
